@@ -124,7 +124,10 @@ def gen_text(rng, nonascii=False, long=False):
 
 FIXED_TEXTS = ['', '\n', '-', '- ', '-\n-', 'a \n', 'a\t\nb', 'a \r\nb', 'a\r', 'a\r\n', '\r', ' ', '\t', 'hello\n- dash\n-----BEGIN PGP SIGNATURE-----\nFrom me',
                'café', 'snow ☃', '\U0001F600', 'a\rb', 'x\n', '\n\n', 'a\n\n', 'Hash: SHA256\n\n-----BEGIN PGP SIGNATURE-----\n\nQUJD\n=E/wO\n-----END PGP SIGNATURE-----',
-               '-----BEGIN PGP SIGNATURE-----\n\nQUJD\n=E/wO\n-----END PGP SIGNATURE-----\n', 'trailing  \nx\t\n', 'line ' * 2000, 'a\x0cb']
+               '-----BEGIN PGP SIGNATURE-----\n\nQUJD\n=E/wO\n-----END PGP SIGNATURE-----\n', 'trailing  \nx\t\n', 'line ' * 2000, 'a\x0cb',
+               # many lines: every line ending is canonicalised, not the first few (8, 9, 10, 40 and 300 of them; with and without a final one)
+               '\n'.join('l%d' % i for i in range(9)), '\n'.join('l%d' % i for i in range(10)) + '\n', '\n'.join('line %d' % i for i in range(41)),
+               '\n'.join('- dash %d' % i for i in range(12)) + '\n', '\n' * 20, '\n'.join('x' for i in range(300)) + '\n']
 
 HASHLIB = {'MD5': 'md5', 'SHA1': 'sha1', 'SHA224': 'sha224', 'SHA256': 'sha256', 'SHA384': 'sha384', 'SHA512': 'sha512'}
 HASHID = {'MD5': 1, 'SHA1': 2, 'SHA256': 8, 'SHA384': 9, 'SHA512': 10, 'SHA224': 11}
